@@ -608,7 +608,27 @@ Definition it_meta (s : src) : option mres :=
         Some {| mr_codes := [T_metaptr; T_metaptr; T_array; T_array; BadType; T_array; T_array;
                              T_array; T_array; T_iter; T_iter; T_iter; BadType; BadType; 0];
                 mr_fmt := [134; 11; 67]%N; mr_vec := m_data m; mr_str := MNull |}
-  | _ => None
+  (* the generators of mptplot/values (iterConv, iterFactorConv, iterBoundaryConv, iterPolyConv, iterValueConv): codes
+     of type 0 without / with target, TypeIteratorPtr with / without target, 'd', 's' with / without target, addref.
+     A value list hands out the description text it keeps behind the object (WITH docs/C19_values_text.diff). *)
+  | SLin _ | SFac _ | SBnd _ =>
+      Some {| mr_codes := [T_iter; T_d; T_d; T_d; BadType; BadType; BadType; 0];
+              mr_fmt := [134]%N; mr_vec := None; mr_str := MNull |}
+  | SPol _ =>
+      Some {| mr_codes := [T_iter; T_d; T_iter; T_iter; BadType; BadType; BadType; 0];
+              mr_fmt := [134]%N; mr_vec := None; mr_str := MNull |}
+  | SVal m =>
+      Some {| mr_codes := [T_iter; T_d; T_s; T_s; BadType; T_iter; T_iter; 0];
+              mr_fmt := [134]%N; mr_vec := None; mr_str := MStr (skipn (v_base m) (t_bytes (v_text m))) |}
+  end.
+
+(* a source re-created from the description it hands out: conversion of the metatype to 's', then
+   mpt_iterator_values on that text (the generators other than the value list do not offer 's') *)
+Definition it_redesc (s : src) : option (Z + option src) :=
+  match s with
+  | SVal m => Some (inr (option_map SVal (mk_values (v_text m) (v_base m))))
+  | SStr _ | SBuf _ => None
+  | _ => Some (inl BadType)
   end.
 
 (* the documented loop of examples/iter.c, at most [fuel] elements *)
@@ -1012,7 +1032,7 @@ End Machines.
 
 (* ------------------------------------------------------------------ histories *)
 Inductive op := OValue | OAdvance | OReset | OClone | OConsume | OWalk | OString
-  | OKey | OKeyN | OVec | OVecN | OUint | OWalkK | OWalkV | OMeta | OMetaS | OSkip.
+  | OKey | OKeyN | OVec | OVecN | OUint | OWalkK | OWalkV | OMeta | OMetaS | OSkip | ORedesc.
 Inductive out :=
 | OutV (v : vres) | OutA (c : Z) | OutR (c : Z) | OutK (ok : bool)
 | OutQ (c : Z) (v : option fv) | OutW (l : list (option fv)) (e : wend)
@@ -1076,6 +1096,12 @@ Definition mstep (rnd : Q -> fv) (st : option src * option src) (o : op * bool)
       (* text iterator metatype: conversion to 's' without target (WITH docs/C19_string_meta_target.diff) *)
       | OMetaS => (st, match s with SStr _ => OutC T_s | _ => OutNone end)
       | OSkip => let (r, s') := it_skip rnd s in (put s', OutZ r)
+      (* slot 1 := mpt_iterator_values(description handed out by this source) *)
+      | ORedesc => match it_redesc s with
+                   | Some (inr c) => ((fst st, c), OutK (match c with Some _ => true | None => false end))
+                   | Some (inl e) => (st, OutC e)
+                   | None => (st, OutNone)
+                   end
       end
   end.
 
